@@ -265,9 +265,21 @@ func ZZ_C03_Literals(sv *zzsv.T) {
 		sq := []int64{0, 1, 2, 3, 4, 9, 10, 16, 65025, 65536, 69696, 70000}
 		lits = append(lits, sq[sv.Choice("sqrtlit", len(sq))])
 	}
+	// products and quotients of two symbolic 64-bit values are beyond the
+	// solvers within the time limit: those templates use literals <= 300
+	// (products still straddle the fold limit 65534)
+	hard := false
+	for i := 0; i+1 < len(src); i++ {
+		if src[i] == '*' || (src[i] == '/' && src[i+1] == ' ') {
+			hard = true
+		}
+	}
 	for i := len(lits); i < 3; i++ {
 		l := sv.Int64("L")
 		sv.Assume(l >= 0)
+		if hard {
+			sv.Assume(l <= 300)
+		}
 		sv.Assume(l <= int64(sv.Param("lit.max", 70000, 70000)))
 		lits = append(lits, l)
 	}
